@@ -7,7 +7,7 @@ class FwdDtype(Exception):
     """forward fed float64 did not return float64 - FD would be noise; the caller skips and counts"""
 
 
-def fd_vjp(f, xs, g, which, h0=1e-6):
+def fd_vjp(f, xs, g, which, h0=1e-6, hscale=1.0):
     """f: list[np.float64 arrays] -> np array (any float dtype);  returns {i: d<g,f>/dx_i} for i in which.
     Raises FwdDtype if f does not return float64 for float64 input."""
     xs = [np.array(x, dtype=np.float64) for x in xs]
@@ -25,7 +25,7 @@ def fd_vjp(f, xs, g, which, h0=1e-6):
         gflat = gi.reshape(-1)
         for j in range(flat.size):
             old = flat[j]
-            h = h0 * max(1.0, abs(old))
+            h = h0 * max(hscale, abs(old))
             flat[j] = old + h
             fp = np.asarray(f([a.copy() for a in xs]), dtype=np.float64)
             flat[j] = old - h
@@ -36,7 +36,7 @@ def fd_vjp(f, xs, g, which, h0=1e-6):
     return grads
 
 
-def close(got, want, dtype, f64_tol=1e-5, f32_tol=2e-3):
+def close(got, want, dtype, f64_tol=1e-5, f32_tol=2e-3, floor=1.0):
     """returns (ok, maxerr, scale)"""
     got = np.asarray(got, dtype=np.float64)
     want = np.asarray(want, dtype=np.float64)
@@ -46,7 +46,7 @@ def close(got, want, dtype, f64_tol=1e-5, f32_tol=2e-3):
         return True, 0.0, 1.0
     if not np.all(np.isfinite(got)):
         return False, float("inf"), 1.0
-    scale = max(1.0, float(np.abs(want).max()))
+    scale = max(floor, float(np.abs(want).max()))
     err = float(np.abs(got - want).max())
     tol = f64_tol if np.dtype(dtype) == np.float64 else f32_tol
     return err <= tol * scale, err, scale
